@@ -253,3 +253,139 @@ pub fn scale_scenario(prop: &str, n: usize, focus: Focus, out: &mut Outcome) {
     }
     drop(w);
 }
+
+/// C16 at scale: `n` events of one author plus 16 deletion requests naming 300 absent ids each (4,800 id markers);
+/// rebuild; every query plan, every marker, every entry count as before, and no byte of anything else in the new
+/// event map.
+pub fn scale_rebuild(n: usize, out: &mut Outcome) {
+    let fail = |out: &mut Outcome, key: &str, detail: String| out.fail(format!("C16:scale:{key}"), format!("store with {n} events and 4,800 deletion markers: {detail}"));
+    let mut w = match World::new(0) {
+        Ok(w) => w,
+        Err(f) => {
+            out.fail(format!("C16:{}", f.key), f.detail);
+            return;
+        }
+    };
+    let (a, c) = ([0xA1u8; 32], [0xC3u8; 32]);
+    let mut all: Vec<OwnedEvent> = Vec::with_capacity(n + 16);
+    let tags = vec![vec!["t".to_string(), "bulk".to_string()]];
+    for i in 0..n {
+        match ev(i, &a, 1, 10_000 + (i as u64) / 2, &tags) {
+            Ok(e) => all.push(e),
+            Err(e) => return fail(out, "harness", e),
+        }
+    }
+    let mut marked: Vec<[u8; 32]> = Vec::new();
+    for r in 0..16usize {
+        let mut dtags = Vec::new();
+        for j in 0..300usize {
+            let mut id = [0xDDu8; 32];
+            id[..8].copy_from_slice(&((r * 300 + j) as u64).to_be_bytes());
+            marked.push(id);
+            dtags.push(vec!["e".to_string(), hex(&id)]);
+        }
+        match ev(5_000_000 + r, &c, 5, 50_000 + r as u64, &dtags) {
+            Ok(e) => all.push(e),
+            Err(e) => return fail(out, "harness", e),
+        }
+    }
+    {
+        let st = w.st();
+        for e in &all {
+            match guard("Store::store_event", || st.store_event(e)) {
+                Ok(Ok(_)) => {}
+                Ok(Err(e)) => return fail(out, "store-failed", e.to_string()),
+                Err(f) => return fail(out, &f.key, f.detail),
+            }
+        }
+    }
+    out.nontrivial = true;
+    out.label(format!("scale-rebuild-{n}"));
+    let empty = OwnedTags::empty();
+    let observe = |w: &World| -> Result<(Vec<Vec<[u8; 32]>>, Vec<u64>, usize), String> {
+        let st = w.st();
+        let mut answers = Vec::new();
+        let t = OwnedTags::new(&[vec!["t".to_string(), "bulk".to_string()]]).map_err(|e| e.to_string())?;
+        for f in [
+            OwnedFilter::new(&[], &[Pubkey::from_bytes(a)], &[], &empty, None, None, None),
+            OwnedFilter::new(&[], &[], &[Kind::from_u16(1)], &t, None, None, None),
+            OwnedFilter::new(&[], &[], &[], &empty, Some(Time::from_u64(9_000)), Some(Time::from_u64(90_000)), None),
+            OwnedFilter::new(&[], &[Pubkey::from_bytes(c)], &[Kind::from_u16(5)], &empty, None, None, None),
+        ] {
+            let f = f.map_err(|e| e.to_string())?;
+            let mut v = ids_of(st, &f)?;
+            v.sort();
+            answers.push(v);
+        }
+        let s = match guard("Store::stats", || st.stats()) {
+            Ok(Ok(s)) => s,
+            Ok(Err(e)) => return Err(e.to_string()),
+            Err(f) => return Err(f.key),
+        };
+        let i = &s.index_stats;
+        let counts = vec![
+            i.general_entries as u64,
+            i.i_index_entries as u64,
+            i.ci_index_entries as u64,
+            i.tc_index_entries as u64,
+            i.ac_index_entries as u64,
+            i.akc_index_entries as u64,
+            i.atc_index_entries as u64,
+            i.ktc_index_entries as u64,
+            i.deleted_index_entries as u64,
+            i.deleted_naddr_index_entries as u64,
+        ];
+        Ok((answers, counts, s.event_bytes))
+    };
+    let markers = |w: &World| -> Result<Option<usize>, String> {
+        let st = w.st();
+        for (k, id) in marked.iter().enumerate() {
+            match guard("Store::event_is_deleted", || st.event_is_deleted(Id::from_bytes(*id))) {
+                Ok(Ok(true)) => {}
+                Ok(Ok(false)) => return Ok(Some(k)),
+                Ok(Err(e)) => return Err(e.to_string()),
+                Err(f) => return Err(f.key),
+            }
+        }
+        Ok(None)
+    };
+    let before = match observe(&w) {
+        Ok(x) => x,
+        Err(e) => return fail(out, &format!("observe-error:{e}"), "before the rebuild".into()),
+    };
+    match markers(&w) {
+        Ok(None) => {}
+        Ok(Some(k)) => return fail(out, "marker-missing-before-rebuild", format!("marker #{k}")),
+        Err(e) => return fail(out, &format!("observe-error:{e}"), "before the rebuild".into()),
+    }
+    if before.0[0].len() != n {
+        return fail(out, "author-query-count", format!("{} events returned before the rebuild", before.0[0].len()));
+    }
+    match w.rebuild() {
+        Res::Ok(_) => {}
+        other => return fail(out, &format!("rebuild-failed:{}", other.class()), format!("{other:?}")),
+    }
+    let after = match observe(&w) {
+        Ok(x) => x,
+        Err(e) => return fail(out, &format!("observe-error:{e}"), "after the rebuild".into()),
+    };
+    for (k, name) in ["author", "kind+tag", "time-window", "deletion-requests"].iter().enumerate() {
+        if before.0[k] != after.0[k] {
+            return fail(out, &format!("rebuild-changed:query:{name}"), format!("{} events before, {} after", before.0[k].len(), after.0[k].len()));
+        }
+    }
+    if before.1 != after.1 {
+        return fail(out, "rebuild-changed:entry-counts", format!("before {:?}, after {:?}", before.1, after.1));
+    }
+    match markers(&w) {
+        Ok(None) => {}
+        Ok(Some(k)) => return fail(out, "rebuild-changed:id-marker-lost", format!("marker #{k} of 4,800 is gone after the rebuild")),
+        Err(e) => return fail(out, &format!("observe-error:{e}"), "after the rebuild".into()),
+    }
+    let sum: usize = all.iter().map(|e| (e.len() + 7) & !7).sum();
+    let raw: usize = all.iter().map(|e| e.len()).sum();
+    if after.2 < 8 + raw || after.2 > 8 + sum {
+        return fail(out, "rebuild-space", format!("event_bytes {} after the rebuild, the {} retrievable events need {}..={} (without / with alignment padding to 8 bytes)", after.2, all.len(), 8 + raw, 8 + sum));
+    }
+    drop(w);
+}
